@@ -405,21 +405,39 @@ def targets():
                           Sn(i_ + 1) == Sn(i_) + z3.If(rgf(pfun(i_)), 0, sizef(pfun(i_))))
         ex.attr_models[("Parameter", "requires_grad")] = lambda ex_, st, obj: rgf(st.attrs(obj)["id"])
         ex.attr_models[("Parameter", "size")] = lambda ex_, st, obj: sizef(st.attrs(obj)["id"])
-        names = ("num_params", "num_trainable", "num_non_trainable")
+        def roles(loop):
+            """the three accumulators of the loop, found by WHERE they are incremented, not by what they are called: unconditionally (total), under the test of the
+            requires_grad flag (trainable), in its else branch (frozen)"""
+            import ast as _ast
+            total = trainable = frozen = None
+            for b in loop.body:
+                if isinstance(b, _ast.AugAssign) and isinstance(b.target, _ast.Name):
+                    total = total or b.target.id
+                elif isinstance(b, _ast.If) and "requires_grad" in _ast.unparse(b.test):
+                    neg = isinstance(b.test, _ast.UnaryOp) and isinstance(b.test.op, _ast.Not)
+                    yes = [x.target.id for x in b.body if isinstance(x, _ast.AugAssign) and isinstance(x.target, _ast.Name)]
+                    no = [x.target.id for x in b.orelse if isinstance(x, _ast.AugAssign) and isinstance(x.target, _ast.Name)]
+                    if neg:
+                        yes, no = no, yes
+                    trainable, frozen = (yes or [None])[0], (no or [None])[0]
+            if None in (total, trainable, frozen):
+                raise KeyError("accumulators of the counting loop not recognised")
+            return (total, trainable, frozen)
 
         def havoc(st, k):
-            for nm in names:
+            for nm in roles(lc.node):
                 st.env[nm] = z3.Int("%s_at_%s" % (nm, k))
             st.pc.append(unfold(k))
 
         def inv(st, k):
-            return [("counters_are_the_partial_sums", z3.And(*[to_z3_(st.env[nm]) == f(k) for nm, f in zip(names, (S, St, Sn))]))]
+            return [("counters_are_the_partial_sums", z3.And(*[to_z3_(st.env[nm]) == f(k) for nm, f in zip(roles(lc.node), (S, St, Sn))]))]
 
         def bind(st, k):
             p_ = Obj("Parameter")
             st.attrs(p_)["id"] = pfun(k)
             return p_
-        ex.loop_contracts = {"self.parameters()": LoopContract("parameter_loop", lambda st: n, inv, havoc, bind)}
+        lc = LoopContract("parameter_loop", lambda st: n, inv, havoc, bind)
+        ex.loop_contracts = {"self.parameters()": lc}
         return s, [me, tr, ntr], {"n": n, "tr": tr, "ntr": ntr}
 
     def ens_np(ctx, s, out):
@@ -456,18 +474,28 @@ def targets():
         s.pc += [n >= 0, Fx(0) == x]
         ex.models["Module.__call__"] = lambda ex_, st, args, kw: app(st.attrs(args[0])["id"], to_z3_(args[1]))
 
+        def carried(loop):
+            """the locals the loop carries from one iteration to the next (every name its body assigns; `out` and `inp` today, one name if they are ever merged)"""
+            import ast as _ast
+            names = sorted({t.id for b in _ast.walk(loop) for t in (b.targets if isinstance(b, _ast.Assign) else []) if isinstance(t, _ast.Name)})
+            if not names:
+                raise KeyError("no carried local in the loop")
+            return names
+
         def havoc(st, k):
-            st.env["out"], st.env["inp"] = z3.Int("out_at_%s" % k), z3.Int("inp_at_%s" % k)
+            for nm in carried(lcs.node):
+                st.env[nm] = z3.Int("%s_at_%s" % (nm, k))
             st.pc.append(Fx(k + 1) == app(cfun(k), Fx(k)))       # the recursive definition of the composition, instantiated at this iteration
 
         def inv(st, k):
-            return [("value_so_far_is_the_composition_of_the_first_k_submodules", z3.And(to_z3_(st.env["out"]) == Fx(k), to_z3_(st.env["inp"]) == Fx(k)))]
+            return [("value_so_far_is_the_composition_of_the_first_k_submodules", z3.And(*[to_z3_(st.env[nm]) == Fx(k) for nm in carried(lcs.node)]))]
 
         def bind(st, k):
             m_ = Obj("Module")
             st.attrs(m_)["id"] = cfun(k)
             return m_
-        ex.loop_contracts = {"self.submodules()": LoopContract("submodule_loop", lambda st: n, inv, havoc, bind)}
+        lcs = LoopContract("submodule_loop", lambda st: n, inv, havoc, bind)
+        ex.loop_contracts = {"self.submodules()": lcs}
         return s, [me, x], {"n": n, "x": x}
 
     def ens_sf(ctx, s, out):
